@@ -626,14 +626,15 @@ static void gen_junk_resolv(vh_rng_t *r, int cls, cfg_bb_t *l)
       cfg_bb_ch(l, ' ');
       cfg_bb_str(l, "9.9.9.9");
       break;
-    case J_LONG_VALUE:
-      cfg_bb_str(l, PICK(r, kws));
+    case J_LONG_VALUE: {
+      /* one very long word where an address, an option word or a lookup word belongs (a line is not junk for being
+       * long: a long search list is a search list, see profile single) */
+      static const char *const kwl[] = { "nameserver", "sortlist", "options", "lookup", "hostresorder" };
+      cfg_bb_str(l, PICK(r, kwl));
       cfg_bb_ch(l, ' ');
-      if (vh_chance(r, 1, 2)) {
-        cfg_bb_str(l, "9.9.9.9 ndots:9 junk.example ");
-      }
       gen_alnum(r, l, vh_range(r, 520, 900));
       break;
+    }
     case J_BINARY:
       gen_binary(r, l, vh_range(r, 1, 60), 1, 1);
       break;
